@@ -221,9 +221,15 @@ theorem applyAxes_cancel {X} (f g : Nat → X → X) (dims : List Nat) (hnd : di
       applyAxes_comm (f d) g ds (fun d' hd' => hcomm d d' (fun e => hnd.1 (e ▸ hd'))),
       hinv, ih hnd.2]
 
-/-- per-axis laws: each axis has mutually inverse shifts and an inverse transform pair; operators
-acting on *different* axes commute (true of any per-axis lifting such as `Tensor.alongAxis`;
-validated by the correspondence check, not proved) -/
+/-- per-axis laws: each axis has mutually inverse shifts and an inverse transform pair, and the
+operators involved commute when they act on *different* axes.  For the tensors the driver runs
+(`Tensor.alongAxis` liftings) the shift laws and every commutation that involves a shift are
+**proved** in `Lemmas/TensorLiftC01.lean` (`fftshift_ifftshift_id_nd`, `fftshift_comm_nd`,
+`ifftshift_comm_nd`, `roll_comm_nd`: a roll is an index gather and commutes with *any* per-axis
+operation on another axis).  Liftings of two *arbitrary* list functions along different axes do
+**not** commute in general (`TensorLift.alongAxis_comm_fails_in_general`), so `comm_F` / `comm_F'`
+(the per-axis factors of `torch.fft.fftn` / `ifftn` commute — true of the DFT, which is linear on
+fibres) stay hypotheses about the external transform, like `inv_fwd` / `fwd_inv`. -/
 structure AxisLaws {X} (sI sF : Nat → X → X) (F : Bool → Norm → Nat → X → X) (vC vR : X → X) : Prop where
   sF_sI : ∀ d x, sF d (sI d x) = x
   sI_sF : ∀ d x, sI d (sF d x) = x
